@@ -75,11 +75,21 @@ for _f in sorted(_glob.glob(os.path.join(os.path.dirname(os.path.abspath(__file_
         if _x not in OBLIG:
             OBLIG.append(_x)
 
+# structural obligations of the coordinator (Obligations/BackendStructure.lean): attached to a property once it is claimed
+for _p in list(THEOREMS):
+    if THEOREMS[_p]:
+        THEOREMS[_p] += ["Obligations.structure_%s" % _p, "Obligations.backend_extraction_complete"]
+if any(THEOREMS.values()) and "QuillModel.Obligations.BackendStructure" not in OBLIG:
+    OBLIG.append("QuillModel.Obligations.BackendStructure")
+
 # a property is claimed in MANIFEST.json only once its theorem file exists
 _ALL_MANIFEST = MANIFEST
 MANIFEST = {p: d for p, d in _ALL_MANIFEST.items() if THEOREMS.get(p)}
 
 VARIANTS = {0: "BoundedBlocking", 1: "BoundedDropping"}
+# the unbounded builds (512-byte initial node, 4 KiB maximum: growth, switches, shrink requests, over-max records) are run
+# with the property oracles only — the Lean backend model carries the bounded queue (the unbounded one is C02's subject)
+ORACLE_ONLY = {2: "UnboundedBlocking", 3: "UnboundedDropping"}
 
 
 def params_line(ex):
@@ -126,7 +136,7 @@ def collect(ck, tier, ex):
     """run every script through harness + driver + oracles; cached by content hash (same tree + seed ⇒ same result)"""
     res = {"cases": 0, "lines": 0, "nontrivial": 0, "mismatches": [], "oracle": [], "aborts": [], "samples": [], "stats": {}}
     bins = {}
-    for v in VARIANTS:
+    for v in list(VARIANTS) + list(ORACLE_ONLY):
         ok, hbin, log = vlib.build_harness("h2_v%d" % v, ["h2_backend.cpp"], extra_flags=["-fno-access-control", "-DH2_VARIANT=%d" % v])
         if not ok:
             res["build_error"] = log
@@ -142,10 +152,10 @@ def collect(ck, tier, ex):
     workdir = os.path.join(vlib.CACHE, "h2work_%d" % os.getpid())
     os.makedirs(workdir, exist_ok=True)
     jobs = []
-    for v in VARIANTS:
+    for v in list(VARIANTS) + list(ORACLE_ONLY):
         for name, lines in bg.directed_scripts(v):
             jobs.append((v, "v%d_%s" % (v, name), lines))
-        for k in range(n_random):
+        for k in range(n_random if v in VARIANTS else n_random // 2):
             g = bg.Gen(ck.seed * 100003 + v * 50021 + k, v)
             jobs.append((v, "v%d_r%d_%s" % (v, k, g.focus), g.script(nops)))
     # corpus: file name ends with .v<variant>.txt
@@ -170,6 +180,9 @@ def collect(ck, tier, ex):
         res["cases"] += 1
         for (p, msg) in bg.oracles(out.split("\n")):
             res["oracle"].append({"prop": p, "msg": msg, "case": name})
+        if name.startswith(("v2_", "v3_")):
+            res["oracle_only_cases"] = res.get("oracle_only_cases", 0) + 1
+            continue
         blob.append("case %s\n%s\n%s" % (name, pline, out))
     rc, dout = vlib.driver(["backend", "trace"], stdin_data="\n".join(blob).encode(), timeout=1200)
     for ln in dout.split("\n"):
@@ -235,6 +248,59 @@ def run(prop, tier):
         return "# %s\n# case %s — replay: python3 tools/check.py %s --replay <this file>\n%s\n# ---- harness output (tail) ----\n# %s\n" % (
             header, case, prop, "\n".join(sc) if sc else "(script not retained)", out.replace("\n", "\n# "))
 
+    transit = None
+    if prop == "C03":
+        # second correspondence stream: the real TransitEventBuffer (growth from the reader position, slot reuse, shrink)
+        okt, tbin, tlog = vlib.build_harness("h3_transit", ["h3_transit.cpp"], extra_flags=["-fno-access-control"])
+        if not okt:
+            ck.violation("harness_build_transit", tlog, "harness h3_transit no longer compiles against the current tree", no_input=True)
+        else:
+            ntr, nops_t = (120, 250) if tier == "quick" else (2000, 400)
+            rct, outt = vlib.sh([tbin, "gen", str(ck.seed), str(ntr), str(nops_t)], env=vlib.ASAN_ENV, timeout=900)
+            rcd, dt = vlib.driver(["transit", "trace"], stdin_data=outt.encode(), timeout=900)
+            tl = [l for l in dt.split("\n") if l.startswith("TRACE ")]
+            tmm = [l for l in dt.split("\n") if l.startswith(("MISMATCH", "BAD-OP"))]
+            tor = [l for l in outt.split("\n") if l.startswith("ORACLE")]
+            transit = {"traces": len(tl), "lines": sum(int(dict(x.split("=") for x in l.split()[2:])["lines"]) for l in tl),
+                       "expands": sum(int(dict(x.split("=") for x in l.split()[2:])["expands"]) for l in tl),
+                       "shrinks": sum(int(dict(x.split("=") for x in l.split()[2:])["shrinks"]) for l in tl),
+                       "mismatches": len(tmm), "oracle_hits": len(tor)}
+            if rct not in (0, 3) or tor or tmm:
+                # replay = the ops of the first offending trace
+                bad_id = None
+                m0 = re.search(r"trace=(\S+)", (tor or tmm or [""])[0])
+                if m0:
+                    bad_id = m0.group(1)
+                ops, cur = [], None
+                for l in outt.split("\n"):
+                    if l.startswith("init "):
+                        cur = l.split()[1]
+                    if bad_id and cur == bad_id and not l.startswith(("ORACLE", "STATS")):
+                        ops.append(l.split(" => ")[0])
+                ck.violation("transit", "# h3_transit replay <this file>\n# %s\n%s\n" % ((tor or tmm or ["abort rc=%d" % rct])[0], "\n".join(ops)),
+                             "the real TransitEventBuffer is not a FIFO / disagrees with the model: %s" % (tor or tmm or ["abort rc=%d: %s" % (rct, outt[-300:])])[0][:300],
+                             no_input=not (tor or rct not in (0, 3)))
+
+    spin = None
+    if prop == "C17":
+        # the registries' spinlock under the atomic shim: race detector on the protected datum + run-time orders
+        oks, sbin, slog = vlib.build_harness("h1_spin", ["h1_spin.cpp"], extra_flags=["-fno-access-control"])
+        if not oks:
+            ck.violation("harness_build_spin", slog, "harness h1_spin no longer compiles against the current tree", no_input=True)
+        else:
+            ntr, nops_s = (200, 300) if tier == "quick" else (3000, 500)
+            rcs, outs = vlib.sh([sbin, "gen", str(ck.seed), str(ntr), str(nops_s)], env=vlib.ASAN_ENV, timeout=900)
+            sor = [l for l in outs.split("\n") if l.startswith("ORACLE")]
+            seen = dict(x.split("=") for l in outs.split("\n") if l.startswith("ORDERS-SEEN") for x in l.split()[1:])
+            st_line = [l for l in outs.split("\n") if l.startswith("STATS")]
+            spin = {"stats": st_line[:1], "orders_seen": seen, "oracle_hits": len(sor)}
+            exs = ex.get("spin", {})
+            if rcs not in (0, 3) or sor:
+                ck.violation("spinlock", "# h1_spin gen %d %d %d\n# %s\n" % (ck.seed, ntr, nops_s, (sor or [outs[-400:]])[0]),
+                             "the registries' spinlock does not order critical sections (happens-before race on the protected data): %s" % (sor or ["abort rc=%d" % rcs])[0][:200])
+            elif seen and ((seen.get("xchg") not in ("-", exs.get("xchg"))) or (seen.get("unlock") not in ("-", exs.get("unl")))):
+                ps["broken"].append("extraction disagrees with the run-time orders of the spinlock: extracted %s, observed %s" % (exs, seen))
+
     mine_or = [o for o in res["oracle"] if o["prop"] == prop]
     mine_mm = [m for m in res["mismatches"] if prop in m["props"]]
     if res["aborts"]:
@@ -265,8 +331,14 @@ def run(prop, tier):
         "mismatching_lines_this_property": len(mine_mm),
         "oracle_hits_this_property": len(mine_or),
         "variants": VARIANTS,
+        "oracle_only_variants": ORACLE_ONLY,
+        "oracle_only_cases": res.get("oracle_only_cases", 0),
         "extracted": ex.get("backend", {}),
     })
+    if transit is not None:
+        ck.cov["transit_buffer_stream"] = transit
+    if spin is not None:
+        ck.cov["spinlock_stream"] = spin
     return ck.finish()
 
 
